@@ -24,6 +24,9 @@ Accept(e, c) ==
                       /\ PropNe(c, e.a, e.b, e.ncalls, e.nret)
     [] e.op \in {"cmp", "partial_cmp"} -> PropCmp(c, e.op, e.a, e.b, e.calls, e.ret)
     [] e.op = "hashes" -> PropHashAll(c, e.obs, e.eqs)
+    [] e.op = "cmp_layout" ->
+         /\ PropCmpResults(c, "partial_cmp", e.a, e.b, e.prets)
+         /\ HasTrait(c, "Ord") => PropCmpResults(c, "cmp", e.a, e.b, e.crets)
     [] OTHER -> FALSE
 
 TraceInit == l = 1 /\ bad = <<>> /\ learned = <<>>
